@@ -220,6 +220,37 @@ pub struct Zzz {
     pub e: UE,
 }
 
+// a shared file whose name does not end in `.ts`, its types referring to one another
+#[derive(TS)]
+#[ts(export_to = "ext/models.mts")]
+pub struct ExtLeaf {
+    pub v: u8,
+}
+/// a branch
+#[derive(TS)]
+#[ts(export_to = "ext/models.mts")]
+pub struct ExtBranch {
+    pub leaf: ExtLeaf,
+    pub d: UD,
+}
+#[derive(TS)]
+#[ts(export_to = "ext/models.mts")]
+pub struct ExtTree {
+    pub b: Vec<ExtBranch>,
+    pub l: Option<ExtLeaf>,
+}
+#[derive(TS)]
+#[ts(export_to = "ext/api.v1")]
+pub struct ExtV1A {
+    pub e: UE,
+}
+#[derive(TS)]
+#[ts(export_to = "ext/api.v1")]
+pub struct ExtV1B {
+    pub a: ExtV1A,
+    pub t: ExtTree,
+}
+
 pub fn registry() -> Vec<TypeEntry> {
     vec![
         TypeEntry::serde::<UA>("UA", "UA"),
@@ -255,6 +286,11 @@ pub fn registry() -> Vec<TypeEntry> {
         TypeEntry::ts::<BlankDoc>("BlankDoc", "BlankDoc"),
         TypeEntry::ts::<Aaa>("Aaa", "Aaa"),
         TypeEntry::ts::<Zzz>("Zzz", "Zzz"),
+        TypeEntry::ts::<ExtLeaf>("ExtLeaf", "ExtLeaf"),
+        TypeEntry::ts::<ExtBranch>("ExtBranch", "ExtBranch"),
+        TypeEntry::ts::<ExtTree>("ExtTree", "ExtTree"),
+        TypeEntry::ts::<ExtV1A>("ExtV1A", "ExtV1A"),
+        TypeEntry::ts::<ExtV1B>("ExtV1B", "ExtV1B"),
         // not exportable roots
         TypeEntry::ts::<i32>("prim:i32", "i32"),
         TypeEntry::ts::<Vec<UA>>("prim:Vec<UA>", "Vec<UA>"),
